@@ -120,5 +120,38 @@ func sharedDirRuns(ctx *core.Ctx, bin string, p *dsl.Program, report func(what, 
 			}
 		}
 	}
+	// sibling output directories one of whose names is a prefix of the other's (out/msg-<a> and out/msg): a
+	// path test done on strings instead of path elements confuses them
+	for i := 0; i < 6; i++ {
+		for j := 0; j < 6; j++ {
+			if i == j || (!ctx.Thorough() && (i+j)%2 == 0) {
+				continue
+			}
+			a, b := api.Langs[i], api.Langs[j]
+			// order on the command line follows the tool's own order of targets; both directories are new
+			tag := fmt.Sprintf("sib_%d_%d", i, j)
+			da, db := filepath.Join(tag, "out", "msg-"+a), filepath.Join(tag, "out", "msg")
+			args := []string{"compile", "-f", file, langFlag[a], da, langFlag[b], db}
+			r := runCLI(dir, 120*time.Second, bin, args...)
+			runs++
+			rep := map[string]any{"name": p.Name, "text": text, "args": args}
+			if r.crashed {
+				continue
+			}
+			if r.exit != 0 {
+				report("non-zero exit when one output directory's name is a prefix of a sibling's", fmt.Sprintf("%s: %s into out/msg-%s, %s into out/msg: exit %d\n%s", p.Name, a, a, b, r.exit, core.Trunc(r.stdout+r.stderr, 300)), rep)
+				continue
+			}
+			for _, x := range []struct{ lang, d string }{{a, da}, {b, db}} {
+				got := dirFiles(filepath.Join(dir, x.d))
+				for n, want := range alone[x.lang] {
+					if got[n] != want {
+						report("a file of "+x.lang+" is missing or different when a sibling output directory's name is a prefix of its own (or the reverse)", fmt.Sprintf("%s: %s into out/msg-%s, %s into out/msg: %s", p.Name, a, a, b, n), rep)
+						break
+					}
+				}
+			}
+		}
+	}
 	return runs
 }
